@@ -41,6 +41,11 @@ TRAILING_WS_A = ['***  \n', '- - - - \n', 'text\n\n- - -\t\n', '> ```\n> code  \
 SCRATCH_A = SCRATCH_A + LOOKAHEAD_A + TRAILING_WS_A + [l + '\npara\n' for l in LIST_SHAPES] + ['> ' + l.replace('\n', '\n> ')[:-2] for l in LIST_SHAPES[:6]]
 
 
+SAME_LINES = [('a | b\n', 'a | b\n--- | ---\n1 | 2\n'), ('| a |\n', '| a |\n|---|\n'), ('text\n', 'text\n===\n'), ('text\n', 'text\n---\n'), ('[r]: /u\n', '[r]: /u\n"t"\n\n[r]\n'),
+              ('[r]\n', '[r]\n: x\n'), ('```\n', '```\ncode\n```\n'), ('<div>\n', '<div>\nx\n</div>\n'), ('- a\n', '- a\n- b\n\n- c\n'), ('a\n', 'a\n| x |\n|---|\n'),
+              ('# h #\n', '# h #\ntext\n'), ('    code\n', '    code\n\n    more\n'), ('x | y\n', 'x | y\n:-: | -\n')]
+
+
 def parse(text, ts):
     return mt.parse(text, ts, scrub_first=True)
 
@@ -130,6 +135,18 @@ def run(ctx):
                         # converted on its own, whatever the document's first line looked like
                         check(ctx, a, b.replace('\n', '\r\n'), ts, 'scratch-matrix-crlf', sep='\n')
                         check(ctx, a, b.replace('\n', '\r'), ts, 'scratch-matrix-cr', sep='\n')
+    # B begins with the very line(s) that A consists of: what a reader concluded about a line in A (not a table header, not a
+    # setext heading's text, not a definition) must not be remembered for the same text in B, where the following line differs
+    k = 0
+    for a, b in SAME_LINES:
+        for wrap_ in ('%s', '> %s', '- %s'):
+            for ts in TOKEN_SETS:
+                k += 1
+                if k % ctx.nshards == ctx.shard:
+                    wa = ''.join((wrap_ % ln if i == 0 or wrap_ != '- %s' else '  ' + ln) + '\n' for i, ln in enumerate(a.split('\n')[:-1]))
+                    wb = ''.join((wrap_ % ln if i == 0 or wrap_ != '- %s' else '  ' + ln) + '\n' for i, ln in enumerate(b.split('\n')[:-1]))
+                    check(ctx, wa, wb, ts, 'same-first-line')
+                    check(ctx, a, wb, ts, 'same-first-line')
     for k in range(sz['pairs'] // ctx.nshards):
         if ctx.out_of_time():
             break
@@ -142,6 +159,8 @@ def run(ctx):
         if rng.random() < 0.2:
             a = rng.choice(SCRATCH_A)
             ka = 'scratch'
+        if rng.random() < 0.08 and b.count('\n') > 1:
+            a, ka = ''.join(ln + '\n' for ln in b.split('\n')[:rng.randint(1, 2)]), 'prefix-of-b'
         if rng.random() < 0.03:
             b, kb = rng.choice('\ufeff\u200b\u2060') + b, kb + '-bom'
         check(ctx, a, b, rng.choice(TOKEN_SETS), ka + '+' + kb)
